@@ -1,8 +1,8 @@
 package stores
 
 import (
-	"encoding/json"
 	"bytes"
+	"encoding/json"
 	"fmt"
 	"os"
 	"sort"
